@@ -236,12 +236,19 @@ const IgnoreBit = 0x80
 
 // EncPacket is v2_enc_packet: enc(len) || AEAD(header || contents).
 func (c *PacketCipher) EncPacket(contents, aad []byte, ignore bool) []byte {
+	return c.EncPacketReserved(contents, aad, ignore, 0)
+}
+
+// EncPacketReserved is EncPacket with the seven reserved header bits set as given (BIP324: "the other bits are
+// reserved and must be ignored by the receiver"; a sender of today sets them to zero).
+func (c *PacketCipher) EncPacketReserved(contents, aad []byte, ignore bool, reserved byte) []byte {
 	if len(contents) > MaxContentsLen {
 		panic("refbip324: contents too long")
 	}
 	pt := make([]byte, 1, 1+len(contents))
+	pt[0] = reserved &^ IgnoreBit
 	if ignore {
-		pt[0] = IgnoreBit
+		pt[0] |= IgnoreBit
 	}
 	pt = append(pt, contents...)
 	body := c.P.Encrypt(aad, pt)
